@@ -65,12 +65,17 @@ pub fn run_script(sh: &mut shell::Shell, args: &Vec<String>) -> i32 {
     }
 
     if text.contains("\\\n") {
+        // an escaped backslash (`\\`) at the end of a line does not continue it
+        text = text.replace("\\\\", "\u{1}\u{1}");
+
         let re = RegexBuilder::new(r#"([ \t]*\\\n[ \t]+)|([ \t]+\\\n[ \t]*)"#)
             .multi_line(true).build().unwrap();
         text = re.replace_all(&text, " ").to_string();
 
         let re = RegexBuilder::new(r#"\\\n"#).multi_line(true).build().unwrap();
         text = re.replace_all(&text, "").to_string();
+
+        text = text.replace("\u{1}\u{1}", "\\\\");
     }
 
     let re_func_head = Regex::new(r"^function ([a-zA-Z_-][a-zA-Z0-9_-]*) *(?:\(\))? *\{$").unwrap();
